@@ -3,19 +3,23 @@ package main
 import (
 	"go/ast"
 	"strconv"
+
+	. "verifharness/tlib"
 )
+
+func main() { Main() }
 
 // AuthFacts: provider/auth/path_matcher.go, utils/scan/scanner.go
 func init() {
-	register("AuthFacts", func(e *Emitter) {
-		pm := parse("provider/auth/path_matcher.go")
+	Register("AuthFacts", func(e *Emitter) {
+		pm := Parse("provider/auth/path_matcher.go")
 		// var pathScanner = scan.NewScanner('/', unicode.IsSpace | nil)
 		trims, delim, ok := true, "", false
-		if call, isCall := topValue(pm, "pathScanner").(*ast.CallExpr); isCall && src(call.Fun) == "scan.NewScanner" && len(call.Args) == 2 {
+		if call, isCall := TopValue(pm, "pathScanner").(*ast.CallExpr); isCall && Src(call.Fun) == "scan.NewScanner" && len(call.Args) == 2 {
 			if lit, isLit := call.Args[0].(*ast.BasicLit); isLit {
 				if r, err := strconv.Unquote(lit.Value); err == nil {
 					delim = r
-					switch src(call.Args[1]) {
+					switch Src(call.Args[1]) {
 					case "nil":
 						trims, ok = false, true
 					case "unicode.IsSpace":
@@ -28,25 +32,25 @@ func init() {
 			e.Unknown("pathScanner")
 		}
 		e.P("/-- provider/auth/path_matcher.go: does `pathScanner` trim blanks off every path token? -/")
-		e.P("def pathScannerTrims : Bool := %s", leanBool(trims))
-		e.P("def pathScannerDelim : String := %s", leanStr(delim))
+		e.P("def pathScannerTrims : Bool := %s", LeanBool(trims))
+		e.P("def pathScannerDelim : String := %s", LeanStr(delim))
 		for _, c := range []string{"sectionWildcard", "endWildcard"} {
 			v := ""
-			if lit, isLit := topValue(pm, c).(*ast.BasicLit); isLit {
+			if lit, isLit := TopValue(pm, c).(*ast.BasicLit); isLit {
 				v, _ = strconv.Unquote(lit.Value)
 			} else {
 				e.Unknown(c)
 			}
-			e.P("def %s : String := %s", c, leanStr(v))
+			e.P("def %s : String := %s", c, LeanStr(v))
 		}
 		// scan.Semicolon = NewScanner(';', unicode.IsSpace)
-		sc := parse("utils/scan/scanner.go")
+		sc := Parse("utils/scan/scanner.go")
 		semi := ""
-		if call, isCall := topValue(sc, "Semicolon").(*ast.CallExpr); isCall && len(call.Args) == 2 {
-			semi = src(call.Args[0]) + "," + src(call.Args[1])
+		if call, isCall := TopValue(sc, "Semicolon").(*ast.CallExpr); isCall && len(call.Args) == 2 {
+			semi = Src(call.Args[0]) + "," + Src(call.Args[1])
 		} else {
 			e.Unknown("scan.Semicolon")
 		}
-		e.P("def semicolonScanner : String := %s", leanStr(semi))
+		e.P("def semicolonScanner : String := %s", LeanStr(semi))
 	})
 }
